@@ -58,6 +58,8 @@ func sliceHdr(hdr []string) (cmp func(a, b int) bool, vs []int, capN int, ok boo
 func implSlice(c core.Case) []string {
 	var s heapz.Slice[int]
 	var seqs []iter.Seq[int] // slot -> the Seq value `s.PopAll()` returned when `seq` was executed
+	var curs []cursor        // cursor number -> next / stop of `iter.Pull(seqs[slot])`
+	defer func() { stopAll(curs) }()
 	return core.RunOps(c,
 		func(hdr []string) string {
 			cmp, vs, capN, ok := sliceHdr(hdr)
@@ -91,6 +93,37 @@ func implSlice(c core.Case) []string {
 				}
 				xs := takeSeq(seqs[sl], 0)
 				return fmt.Sprintf("%v %v", xs, s.Values)
+			case len(t) == 2 && t[0] == "pull":
+				sl, ok := slotOf(t[1], len(seqs))
+				if !ok {
+					return "bad-op"
+				}
+				next, stop := iter.Pull(seqs[sl])
+				curs = append(curs, cursor{next, stop})
+				return "ok " + fmt.Sprint(s.Values)
+			case len(t) == 2 && t[0] == "next":
+				cu, ok := slotOf(t[1], len(curs))
+				if !ok {
+					return "bad-op"
+				}
+				r := showNext(curs[cu].next())
+				return r + " " + fmt.Sprint(s.Values)
+			case len(t) == 2 && t[0] == "stop":
+				cu, ok := slotOf(t[1], len(curs))
+				if !ok {
+					return "bad-op"
+				}
+				curs[cu].stop()
+				return "ok " + fmt.Sprint(s.Values)
+			case len(t) >= 2 && t[0] == "popallbody":
+				// the loop body uses the heap (see body.go)
+				stop, ok1 := natTok(t[1])
+				items, ok2 := parseBodyItems(t[2:], false, 0)
+				if !ok1 || !ok2 {
+					return "bad-op"
+				}
+				r := slicePopAllBody(&s, stop, items)
+				return r + " " + fmt.Sprint(s.Values)
 			case len(t) == 2 && t[0] == "push":
 				x, ok := atoi(t[1])
 				if !ok {
@@ -174,7 +207,8 @@ func checkSlice(c core.Case, out []string) *core.Failure {
 	if !ok {
 		return nil
 	}
-	nseq := 0 // Seq values made so far
+	nseq := 0          // Seq values made so far
+	var curDone []bool // iter.Pull cursors in creation order: finished (exhausted / stopped)?
 	if !strings.HasPrefix(out[0], "ok ") {
 		return &core.Failure{Key: "slice-init", Desc: "FromSlice / NewSlice answered " + out[0]}
 	}
@@ -227,6 +261,166 @@ func checkSlice(c core.Case, out []string) *core.Failure {
 				return fail("slice-seq-create", i, c, out, "calling PopAll() without ranging over the result must not change anything (before: %v)", prev)
 			}
 			nseq++
+		case "pull":
+			// next, stop := iter.Pull(q): nothing is popped before the first next()
+			if _, ok := slotOf(t[1], nseq); !ok {
+				return nil
+			}
+			if res != "ok" || fmt.Sprint(vals) != fmt.Sprint(prev) {
+				return fail("slice-pull-create", i, c, out, "iter.Pull(q) without a next() must not change anything (before: %v)", prev)
+			}
+			curDone = append(curDone, false)
+		case "stop":
+			cn, ok := slotOf(t[1], len(curDone))
+			if !ok {
+				return nil
+			}
+			if res != "ok" || fmt.Sprint(vals) != fmt.Sprint(prev) {
+				return fail("slice-stop", i, c, out, "stop() must not change the heap (before: %v)", prev)
+			}
+			curDone[cn] = true
+		case "next":
+			// one next() on an active cursor = one Pop
+			cn, ok := slotOf(t[1], len(curDone))
+			if !ok {
+				return nil
+			}
+			if curDone[cn] {
+				if res != "0 false" || fmt.Sprint(vals) != fmt.Sprint(prev) {
+					return fail("slice-next-finished", i, c, out, "cursor %d is finished (stopped, or a next() found the heap empty): next() must answer (0,false) and change nothing (before: %v)", cn, prev)
+				}
+				break
+			}
+			if len(ref) == 0 {
+				if res != "0 false" {
+					return fail("slice-next-empty", i, c, out, "next() on an empty heap must answer (0,false)")
+				}
+				curDone[cn] = true
+				break
+			}
+			f := strings.Fields(res)
+			if len(f) != 2 || f[1] != "true" {
+				return fail("slice-next", i, c, out, "next() of an active cursor on a heap of %d elements must yield one", len(ref))
+			}
+			x, err := strconv.Atoi(f[0])
+			var present bool
+			if err == nil {
+				ref, present = removeOne(ref, x)
+			}
+			if !present {
+				return fail("slice-next-foreign", i, c, out, "the yielded value was not in the heap")
+			}
+			if y, bad := msPrecedes(ref, x, cmp); bad {
+				return fail("slice-next-min", i, c, out, "remaining %d precedes the yielded %d", y, x)
+			}
+			// (one next() = ONE Pop: the multiset check below sees a second one)
+		case "popallbody":
+			stop, ok1 := natTok(t[1])
+			items, ok2 := parseBodyItems(t[2:], false, 0)
+			if !ok1 || !ok2 {
+				return nil
+			}
+			if res == "runaway" {
+				return fail("slice-popallbody-runaway", i, c, out, "the loop did not end after Len + pushes + 8 iterations")
+			}
+			ys, rs, ok := parseTwoLists(res)
+			if !ok {
+				return fail("slice-format", i, c, out, "unparsable")
+			}
+			script, _ := byIteration(items)
+			ref = append([]int{}, ref...)
+			ri := 0
+			for yi, v := range ys {
+				if len(ref) == 0 {
+					return fail("slice-popallbody-count", i, c, out, "iteration %d yielded %d although the heap was empty by then", yi, v)
+				}
+				var present bool
+				if ref, present = msRemove(ref, v); !present {
+					for _, w := range ys[:yi] {
+						if w == v {
+							return fail("slice-popallbody-twice", i, c, out, "iteration %d yielded %d again: it was yielded before in this loop and nobody pushed it back", yi, v)
+						}
+					}
+					return fail("slice-popallbody-foreign", i, c, out, "iteration %d yielded %d, which the heap does not hold at that moment (holding %v)", yi, v, ref)
+				}
+				if y, bad := msPrecedes(ref, v, cmp); bad {
+					return fail("slice-popallbody-min", i, c, out, "iteration %d yielded %d while %d, which precedes it, is in the heap", yi, v, y)
+				}
+				// the body of this iteration: the yielded element is NOT in the heap any more
+				for _, b := range script[yi] {
+					need := 0
+					switch b.act {
+					case "peek", "pop", "rm":
+						need = 2
+					case "len":
+						need = 1
+					}
+					if ri+need > len(rs) {
+						return fail("slice-popallbody-results", i, c, out, "the bodies that ran must have produced more than %d results", len(rs))
+					}
+					r := rs[ri : ri+need]
+					ri += need
+					what := fmt.Sprintf("body of iteration %d, %s", yi, b.act)
+					switch b.act {
+					case "push":
+						ref = append(ref, b.arg)
+					case "len":
+						if r[0] != len(ref) {
+							return fail("slice-popallbody-len", i, c, out, "%s: Len() = %d, the heap holds %d elements then (the yielded one has left)", what, r[0], len(ref))
+						}
+					case "peek", "pop":
+						if len(ref) == 0 {
+							if r[0] != 0 || r[1] != 0 {
+								return fail("slice-popallbody-"+b.act+"-empty", i, c, out, "%s: the heap is empty then, got (%d,%d)", what, r[0], r[1])
+							}
+							break
+						}
+						if r[1] != 1 {
+							return fail("slice-popallbody-"+b.act, i, c, out, "%s on a heap of %d must succeed", what, len(ref))
+						}
+						rest, present := msRemove(append([]int{}, ref...), r[0])
+						if !present {
+							if r[0] == v {
+								return fail("slice-popallbody-"+b.act+"-yielded", i, c, out, "%s returned %d, the element this iteration yielded: it must have left the heap before the body runs", what, r[0])
+							}
+							return fail("slice-popallbody-"+b.act, i, c, out, "%s returned %d, which the heap does not hold (holding %v)", what, r[0], ref)
+						}
+						if y, bad := msPrecedes(rest, r[0], cmp); bad {
+							return fail("slice-popallbody-"+b.act+"-min", i, c, out, "%s returned %d, %d precedes it", what, r[0], y)
+						}
+						if b.act == "pop" {
+							ref = rest
+						}
+					case "rm":
+						// Remove(idx): which value sits at idx is a matter of layout; it must be
+						// one the heap holds (index 0: a minimum), out of range: (zero,false)
+						if b.arg < 0 || b.arg >= len(ref) {
+							if r[0] != 0 || r[1] != 0 {
+								return fail("slice-popallbody-rm-range", i, c, out, "%s: Remove(%d) on a heap of %d must return (zero,false)", what, b.arg, len(ref))
+							}
+							break
+						}
+						if r[1] != 1 {
+							return fail("slice-popallbody-rm", i, c, out, "%s: Remove(%d) on a heap of %d must succeed", what, b.arg, len(ref))
+						}
+						if ref, present = msRemove(ref, r[0]); !present {
+							return fail("slice-popallbody-rm", i, c, out, "%s: Remove(%d) returned %d, which the heap does not hold", what, b.arg, r[0])
+						}
+						if y, bad := msPrecedes(ref, r[0], cmp); bad && b.arg == 0 {
+							return fail("slice-popallbody-rm", i, c, out, "%s: Remove(0) returned %d, %d precedes it", what, r[0], y)
+						}
+					}
+				}
+			}
+			if stop > 0 && len(ys) > stop {
+				return fail("slice-popallbody-count", i, c, out, "the consumer left the loop in iteration %d, %d elements were yielded", stop-1, len(ys))
+			}
+			if (stop == 0 || len(ys) < stop) && len(ref) != 0 {
+				return fail("slice-popallbody-count", i, c, out, "the loop ended by itself after %d iterations although the heap still holds %d elements (%v)", len(ys), len(ref), ref)
+			}
+			if ri != len(rs) {
+				return fail("slice-popallbody-results", i, c, out, "the bodies that ran produce %d results, got %d", ri, len(rs))
+			}
 		case "push":
 			x, _ := atoi(t[1])
 			ref = append(ref, x)
@@ -465,14 +659,55 @@ func genSlice(r *core.Rand) core.Case {
 	}
 	// Seq values obtained EARLY (`seq` = q := s.PopAll()), ranged over late
 	nseq, lastSlot := 0, -1
+	// iter.Pull cursors over the held Seq values: two (sometimes three) that alternate
+	curs := &genCursors{}
+	var next func() // a follow-up the previous op asked for
+	doPull := func() {
+		lines = append(lines, fmt.Sprintf("pull %d", r.Intn(nseq)))
+		curs.add(0)
+	}
+	var doNext func(cn int)
+	doNext = func(cn int) {
+		lines = append(lines, fmt.Sprintf("next %d", cn))
+		curs.last = cn
+		if curs.done[cn] {
+			return
+		}
+		if len(sim.arr[0]) > 0 {
+			sim.pop(0, 'p')
+			return
+		}
+		// empty: the cursor is finished for good; often a push follows and it is asked again
+		curs.done[cn] = true
+		if r.Chance(50) {
+			next = func() {
+				v := val()
+				lines = append(lines, fmt.Sprintf("push %d", v))
+				sim.attach(0, sim.alloc(v))
+				next = func() { doNext(cn) }
+			}
+		}
+	}
 	if r.Chance(40) {
 		for i := r.Range(1, 2); i > 0; i-- {
 			lines = append(lines, "seq")
 			nseq++
 		}
 		ops = max(ops, r.Range(8, 30))
+		if r.Chance(45) {
+			for i := r.Pick(0, 25, 55, 20); i > 0; i-- {
+				doPull()
+			}
+			ops = max(ops, r.Range(12, 34))
+		}
 	}
 	for len(lines) <= ops {
+		if next != nil {
+			f := next
+			next = nil
+			f()
+			continue
+		}
 		n := len(sim.arr[0])
 		pushW := 16
 		if n < target {
@@ -482,7 +717,41 @@ func genSlice(r *core.Rand) core.Case {
 		if nseq > 0 {
 			rangeW = 12
 		}
-		switch r.Pick(pushW, 18, 3, 2, 22, 12, 6, 1, 10, 3, rangeW, 1) {
+		pullW, nextW, stopW := 0, 0, 0
+		if nseq > 0 {
+			pullW = 3
+			if len(curs.slot) >= 3 {
+				pullW = 1
+			}
+		}
+		if len(curs.slot) > 0 {
+			nextW, stopW = 18, 2
+			rangeW = 6
+		}
+		switch r.Pick(pushW, 18, 3, 2, 22, 12, 6, 1, 10, 3, rangeW, 1, 6, pullW, nextW, stopW) {
+		case 12:
+			// the loop body uses the heap while PopAll is being ranged over
+			if n == 0 && r.Chance(70) {
+				continue
+			}
+			lines = append(lines, genSliceBody(r, sim, bodyStop(r, n), cn, val, func() int {
+				g.next++
+				return (g.next - 1) % 1000
+			}))
+		case 13:
+			doPull()
+			if r.Chance(50) {
+				doPull()
+			}
+		case 14:
+			doNext(curs.pick(r))
+		case 15:
+			cu := curs.pick(r)
+			lines = append(lines, fmt.Sprintf("stop %d", cu))
+			curs.done[cu] = true
+			if r.Chance(60) {
+				next = func() { doNext(cu) }
+			}
 		case 10:
 			sl := r.Intn(nseq)
 			if lastSlot >= 0 && r.Chance(55) {
@@ -504,6 +773,9 @@ func genSlice(r *core.Rand) core.Case {
 		case 11:
 			lines = append(lines, "seq")
 			nseq++
+			if r.Chance(50) {
+				doPull()
+			}
 		case 9:
 			k := pickStop(r, n)
 			lines = append(lines, fmt.Sprintf("popalln %d", k))
